@@ -144,3 +144,85 @@ def run(ctx):
         ctx.fail_closed('F-PUT', 'Encoder::put no longer calls Write::write_all (anchor moved)')
     return ('Complete cell->bytes tables of the %d Encoder methods were extracted from MIR by value-range analysis and compared '
             'term by term with the RFC 8949 preferred serialisation for all argument values at once.' % n_methods)
+
+
+# ---------------------------------------------------------------------------
+# S-ENC.wf: every built-in Encode impl writes exactly one item tree; iterator adapters are balanced
+
+from . import summaries
+from .derive_rules import parse_tree, fmt_items
+
+
+def wellformed(ctx, prog):
+    ctx.rules_run.append('S-ENC.wf: the emission summary of every built-in Encode impl is exactly one well-formed item tree (header counts = children, begin/break balanced)')
+    impls = [i for i in prog.impls if i['trait'] == 'minicbor::encode::Encode' and i['krate'] == 'minicbor']
+    n = 0
+    for i in impls:
+        t = i['self_ty']
+        ep = i['trait_ref'] + '::encode'
+        r = summaries.summary(prog, ep, 'enc')
+        where = mir.loc(i['sp'])
+        if r is None or r[0] == 'abort':
+            ctx.fail_closed('S-ENC.wf', '%s: encode not summarised (%s)' % (t, r[1] if r else 'missing'))
+            continue
+        inst, outs, m = r
+        for o in outs:
+            if o.kind != 'return' or l1.result_kind(o.value) != 'Ok':
+                continue
+            ev = [e for e in o.st.events if e[0] in ('ITEM', 'REP_BEGIN', 'REP_END')]
+            key = '%s|%s' % (t, ','.join('%s=%s' % kv for kv in sorted(summaries.choices(o.st).items())) or 'all')
+            n += 1
+            if t in ('minicbor::data::token::Token<\'b>', 'minicbor::data::Tag', 'minicbor::data::IanaTag'):
+                # tokens and bare tags are one head by design (a tag annotates the item that follows), not one item
+                if len([e for e in ev if e[0] == 'ITEM']) == 1:
+                    ctx.ok('S-ENC.wf', key)
+                else:
+                    ctx.violation('S-ENC.wf', key, 'a token writes %s' % fmt_items(ev), where)
+                continue
+            j, why = parse_tree(ev, 0)
+            if j is None:
+                ctx.violation('S-ENC.wf', key + '|malformed', 'emission %s is not one well-formed item: %s' % (fmt_items(ev)[:200], why), where)
+            elif j != len(ev):
+                ctx.violation('S-ENC.wf', key + '|extra', 'emission %s continues after a complete item (more than one item / unbalanced header)' % fmt_items(ev)[:200], where)
+            else:
+                ctx.ok('S-ENC.wf', key)
+    ctx.floor('S-ENC.wf', 'impls', len(impls), 95)
+    # iterator adapters: definite header only under an exact size hint; otherwise begin .. break
+    for t in ('minicbor::encode::ArrayIter<I>', 'minicbor::encode::MapIter<I>'):
+        r = summaries.summary(prog, '<%s as minicbor::encode::Encode<C>>::encode' % t, 'enc')
+        if r is None or r[0] == 'abort':
+            ctx.fail_closed('S-ENC.iter', '%s not summarised' % t)
+            continue
+        inst, outs, m = r
+        where = mir.loc(inst['sp'])
+        for o in outs:
+            if o.kind != 'return' or l1.result_kind(o.value) != 'Ok':
+                continue
+            items = [e[1:] for e in o.st.events if e[0] == 'ITEM']
+            kn = o.st.extra.get('known') or {}
+            exact = [v for k, v in kn.items() if k.startswith('eq(') and 'size_hint' in k]
+            head = items[0] if items else None
+            if head is None:
+                ctx.violation('S-ENC.iter', t + '|empty', 'nothing is written', where)
+                continue
+            if head[0] in ('ARRAY', 'MAP'):
+                if exact == [1] and 'size_hint' in repr(head[1]):
+                    ctx.ok('S-ENC.iter', t + '|definite')
+                else:
+                    ctx.violation('S-ENC.iter', t + '|definite-without-exact-hint', 'a definite-length header %r is written on a path that has not established lower bound == upper bound of size_hint() (facts on the path: %s)' % (head[1], sorted(kn.items()) or 'none'), where)
+                if ('BREAK',) in items:
+                    ctx.violation('S-ENC.iter', t + '|break-after-definite', 'a break follows a definite-length container', where)
+            elif head[0] == 'BEGIN':
+                if items[-1] == ('BREAK',) and items.count(('BREAK',)) == 1:
+                    ctx.ok('S-ENC.iter', t + '|indefinite')
+                else:
+                    ctx.violation('S-ENC.iter', t + '|unbalanced', 'indefinite container without exactly one closing break: %s' % (items,), where)
+
+
+_run1 = run
+
+
+def run(ctx):
+    expl = _run1(ctx)
+    wellformed(ctx, load.program('core-full'))
+    return expl + ' Item-level emission summaries of all built-in Encode impls parse as exactly one item tree.'
